@@ -13,6 +13,7 @@ import (
 	bolt "go.etcd.io/bbolt"
 	"go.etcd.io/bbolt/verifh/exec"
 	"go.etcd.io/bbolt/verifh/gen"
+	"go.etcd.io/bbolt/verifh/iotrace"
 )
 
 // apiArgs is the argument file of the "api" child mode.
@@ -63,7 +64,14 @@ func childAPI(argfile string) {
 		}
 		dbPath := filepath.Join(a.Dir, fmt.Sprintf("db-%d-%d", os.Getpid(), i))
 		r := exec.NewRunner(dbPath, a.Mon)
+		// the tracer serves commits with one injected I/O failure ("fail:k" steps); it also carries the cursor budget
+		tr := iotrace.New(dbPath)
+		tr.CursorLimit = a.CursorBudget
+		tr.Install()
+		r.Tracer = tr
+		r.AfterOpen = func(r *exec.Runner) { tr.MetaLimit = int64(2 * r.DB.VerifPageSize()) }
 		viol := r.Run(p)
+		bolt.SetVerifHooks(&bolt.VerifHooks{CursorBudget: a.CursorBudget})
 		os.Remove(dbPath)
 		st := r.Stats
 		st.LastDecode = nil
